@@ -76,7 +76,13 @@ func FindTimeRangeBucket(r *Range, timestamp uint64) uint64 {
 		return r.start
 	}
 	if timestamp >= r.end {
-		return r.end - r.step
+		// The search matches timestamps up to and including the end of the range; they
+		// belong to the last bucket of the grid, the one that holds end-1. That is
+		// end-step only when the range is a whole number of steps.
+		if r.end <= r.start {
+			return r.start
+		}
+		return r.start + ((r.end-1-r.start)/r.step)*r.step
 	}
 
 	index := ((timestamp - r.start) / r.step)
